@@ -7,16 +7,17 @@ CHECK = {
              "every pthread mutex lock/unlock (interposed); ALL schedules with <= B preemptions (quick: B=1; "
              "thorough: B=2 with the quick budgets for the two-thread roots, and B=1 with doubled budgets for "
              "all roots) for every assignment of 3 events to the streams that uses >= 2 streams, x "
-             "six variants {rec: recorder+diagnostics; calo: SimpleCalo+diagnostics with charge-partitioned "
+             "seven variants {rec: recorder+diagnostics; calo: SimpleCalo+diagnostics with charge-partitioned "
              "initialisation; recsort: recorder with track re-indexing by particle type; recsortact: "
              "re-indexing by along-step and step-limit action; recfield: uniform-field + Urban-MSC "
-             "along-step; recchk: StatusChecker attached}; the atomic read-modify-writes executed inside "
+             "along-step; recchk: StatusChecker attached; recpart: recorder with charge-partitioned initialisation "
+             "(init_charge), per-event histories compared}; the atomic read-modify-writes executed inside "
              "ActionDiagnostic / StepDiagnostic / the post-step gather (SimpleCalo) have their own "
              "per-thread budgets, separate from the thread-private atomics (track-id counter, secondary "
              "stack); oracle = serial single-stream results. "
              "part tsan: every assignment of 3 events to 2 streams (8) and to 3 streams (27), plus one "
              "event per stream for 4, 8 and 16 streams (identity assignment and rotated by one), x the same "
-             "six variants (quick: the three newer variants run only the 6 three-stream assignments "
+             "seven variants (quick: the four newer variants run only the 6 three-stream assignments "
              "that keep all streams busy; 4 streams identity + rotated, 8 identity, 16 rotated), each repeated with free-running threads that construct their "
              "Steppers concurrently on one shared CoreParams, under ThreadSanitizer; the threads rendezvous at every begin-run action and at their first 32 "
              "step actions (CELERITAS_VERIF hooks) so that the same action of the shared registry really "
